@@ -36,7 +36,7 @@ use gimli::{
 use indexmap::IndexMap;
 use log::debug;
 use memmap2::Mmap;
-use object::{Object, ObjectSection};
+use object::{Object, ObjectSection, ObjectSegment};
 use rayon::prelude::*;
 use regex::Regex;
 use std::collections::{HashMap, HashSet};
@@ -52,6 +52,9 @@ pub type EndianArcSlice = gimli::EndianArcSlice<gimli::RunTimeEndian>;
 
 pub struct DebugInformation<R: gimli::Reader = EndianArcSlice> {
     file: PathBuf,
+    /// Lowest virtual address of the loadable segments (page aligned): 0 for position independent
+    /// objects, the link base for executables linked at a fixed address (ET_EXEC).
+    link_base: usize,
     inner: Dwarf<R>,
     eh_frame: EhFrame<R>,
     debug_frame: Option<DebugFrame<R>>,
@@ -70,6 +73,7 @@ impl Clone for DebugInformation {
     fn clone(&self) -> Self {
         Self {
             file: self.file.clone(),
+            link_base: self.link_base,
             inner: Dwarf {
                 debug_abbrev: self.inner.debug_abbrev.clone(),
                 debug_addr: self.inner.debug_addr.clone(),
@@ -119,6 +123,12 @@ impl DebugInformation {
     /// a debug information but contains a link to it.
     pub fn pathname(&self) -> &Path {
         self.file.as_path()
+    }
+
+    /// Return the address the object is linked at (lowest virtual address of its loadable
+    /// segments), 0 for position independent objects.
+    pub fn link_base(&self) -> usize {
+        self.link_base
     }
 
     /// The location lists in the .debug_loc and .debug_loclists sections.
@@ -729,6 +739,15 @@ impl DebugInformationBuilder {
                 }
             })
         };
+        // address the image is linked at: objects are mapped at `link address + load bias`,
+        // where the bias is the start of the lowest mapping minus this base
+        let link_base = file
+            .segments()
+            .map(|segment| segment.address())
+            .min()
+            .map(|addr| addr as usize & !0xfff)
+            .unwrap_or(0);
+
         let mut bases = BaseAddresses::default();
         if let Some(got) = section_addr(".got") {
             bases = bases.set_got(got);
@@ -814,6 +833,7 @@ impl DebugInformationBuilder {
 
             return Ok(DebugInformation {
                 file: obj_path.to_path_buf(),
+                link_base,
                 inner: dwarf,
                 eh_frame,
                 debug_frame,
@@ -850,6 +870,7 @@ impl DebugInformationBuilder {
 
         Ok(DebugInformation {
             file: obj_path.to_path_buf(),
+            link_base,
             inner: dwarf,
             eh_frame,
             debug_frame,
